@@ -131,6 +131,9 @@ func (x *cx) auth() error {
 		p.Props = &mqttx.Props{SessionExpiry: &e}
 		if enhanced {
 			m := "method"
+			if c.Variant == 1 {
+				m = "" // an Authentication Method of length 0 is still an Authentication Method
+			}
 			p.Props.AuthMethod = &m
 		}
 	}
@@ -517,7 +520,7 @@ func allCases() []Case {
 				cs = append(cs, Case{Kind: "auth", V: v, Verdict: "basic_reject", Code: code, Variant: variant})
 			}
 			if v == 5 {
-				cs = append(cs, Case{Kind: "auth", V: v, Verdict: "enhanced_reject", Code: code})
+				cs = append(cs, Case{Kind: "auth", V: v, Verdict: "enhanced_reject", Code: code}, Case{Kind: "auth", V: v, Verdict: "enhanced_reject", Code: code, Variant: 1})
 			}
 		}
 		for _, code := range []byte{0, 0x80, 0x87, 0x8f} {
@@ -555,7 +558,7 @@ func RunEnforcement(r *monitor.Run) {
 		seen := map[string]int{}
 		var keep []Case
 		for _, c := range cs {
-			k := fmt.Sprintf("%s|%s|%d|%v", c.Kind, c.Verdict, c.V, c.Kind == "auth" && c.Variant >= 2 && c.Code > 0x80 && c.Code != 0x87)
+			k := fmt.Sprintf("%s|%s|%d|%v|%v", c.Kind, c.Verdict, c.V, c.Kind == "auth" && c.Variant >= 2 && c.Code > 0x80 && c.Code != 0x87, c.Verdict == "enhanced_reject" && c.Variant == 1)
 			if seen[k] < 3 {
 				keep = append(keep, c)
 			}
